@@ -31,6 +31,19 @@ Definition vnp_vars (h : handle) : list (string * val) :=
 
 Definition optnull {A} (o : option A) : val := VPtr (match o with None => true | Some _ => false end).
 
+(* does a generated contract test the variable / atom of that name? (which generation of a test the C text has) *)
+Fixpoint cexp_mentions (n : string) (c : cexp) : bool :=
+  match c with
+  | CVar s => String.eqb s n
+  | CCmp _ a b | COr a b | CAnd a b => cexp_mentions n a || cexp_mentions n b
+  | CTrue a | CNot a => cexp_mentions n a
+  | _ => false
+  end.
+Definition contract_mentions (n : string) (c : list cstep) : bool :=
+  existsb (fun s => match s with
+                    | SDirect e _ _ | SReport e _ _ | SExit e | SSkip e _ => cexp_mentions n e
+                    | _ => false end) c.
+
 (* ------------------------------------------------------------------ vnacal_new_alloc *)
 Definition env_new_alloc (h : handle) (t r c f : Z) : env :=
   lookup (vcp_vars h ++ [("type", VInt t); ("m_rows", VInt r); ("m_columns", VInt c); ("frequencies", VInt f)]).
@@ -44,6 +57,7 @@ Definition env_set_fv (h : handle) (s : nsum) (fv : option (list dval)) (ranges_
   lookup (vnp_vars h ++
           [("frequency_vector", optnull fv); ("vnp->vn_frequencies", VInt (v_freqs s));
            ("atom:fv_has_nan_or_negative", bval (existsb (fun x => dnan x || dlt x d0) l));
+           ("atom:fv_has_nan_inf_or_negative", bval (existsb (fun x => dnan x || dlt x d0) l));   (* no infinities in a dval *)
            ("atom:fv_not_ascending", bval (adjacent_ge l));
            ("atom:parameter_ranges_bad", bval ranges_bad)]).
 
@@ -136,6 +150,7 @@ Record apply_args : Type := mkapp {
   ap_ci : Z;
   ap_fv_null : bool;           (* frequency_vector == NULL *)
   ap_n : Z;                    (* frequencies *)
+  ap_fv_nan : bool;            (* oracle: some entry of the frequency vector is NaN *)
   ap_not_ascending : bool;     (* oracle over the vector *)
   ap_below : bool; ap_above : bool;   (* oracles: first frequency below / last above the bounds of the calibration *)
   ap_b_null : bool; ap_b_rows : Z; ap_b_cols : Z; ap_b_null_cell : bool;
@@ -154,6 +169,7 @@ Definition env_apply (h : handle) (tb : caltab) (a : apply_args) : env :=
   lookup (table_vars "vaa.vaa_ci" h tb (ap_ci a) ++
           [("c_rows", VInt (cs_rows c)); ("c_columns", VInt (cs_cols c)); ("c_ports", VInt ports);
            ("vaa.vaa_frequency_vector", VPtr (ap_fv_null a)); ("vaa.vaa_frequencies", VInt (ap_n a));
+           ("atom:apply_fv_has_nan", bval (ap_fv_nan a));
            ("atom:apply_fv_not_ascending", bval (ap_not_ascending a));
            ("atom:apply_below_range", bval (ap_below a)); ("atom:apply_above_range", bval (ap_above a));
            ("vaa.vaa_b_matrix", VPtr (ap_b_null a)); ("vaa.vaa_b_rows", VInt (ap_b_rows a)); ("vaa.vaa_b_columns", VInt (ap_b_cols a));
@@ -164,13 +180,16 @@ Definition env_apply (h : handle) (tb : caltab) (a : apply_args) : env :=
            ("vaa.vaa_s_parameters", VPtr (ap_out_null a))]).
 
 (* vnacal_apply(3): the arguments the manual admits for a calibration c *)
-Definition apply_valid (tb : caltab) (a : apply_args) : bool :=
+(* nan = the C text tests the frequency vector for NaN (fix DC93) *)
+Definition gen_apply_tests_nan : bool :=
+  Eval vm_compute in contract_mentions "atom:apply_fv_has_nan" gen_contract_vnacal_apply_common.
+Definition apply_valid_with (nan : bool) (tb : caltab) (a : apply_args) : bool :=
   match cal_at tb (ap_ci a) with
   | None => false
   | Some c =>
       let ports := Z.max (cs_rows c) (cs_cols c) in
       ((cs_rows c =? cs_cols c) || (ports =? 2)) &&
-      negb (ap_fv_null a) && (0 <=? ap_n a) && negb (ap_not_ascending a) &&
+      negb (ap_fv_null a) && (0 <=? ap_n a) && negb (nan && ap_fv_nan a) && negb (ap_not_ascending a) &&
       ((ap_n a =? 0) || (negb (cs_freqs c =? 0) && negb (ap_below a) && negb (ap_above a))) &&
       negb (ap_b_null a) && (ap_b_rows a =? ports) && (ap_b_cols a =? ports) && negb (ap_b_null_cell a) &&
       match ap_a a with
@@ -179,6 +198,8 @@ Definition apply_valid (tb : caltab) (a : apply_args) : bool :=
       end &&
       negb (ap_out_null a)
   end.
+
+Definition apply_valid : caltab -> apply_args -> bool := apply_valid_with gen_apply_tests_nan.
 
 (* ------------------------------------------------------------------ the reporter on top of the prologue *)
 (* the value _vnaerr_verror gives new_errno: the table of the switch, the errno on entry for VNAERR_SYSTEM *)
@@ -215,78 +236,6 @@ Definition silent_functions : list string :=
    "vnacal_property_count"; "vnacal_property_keys"; "vnacal_property_get"; "vnacal_property_set";
    "vnacal_property_delete"; "vnacal_property_get_subtree"; "vnacal_property_set_subtree"].
 Definition is_silent_function (f : string) : bool := existsb (String.eqb f) silent_functions.
-
-(* ------------------------------------------------------------------ the settings of a vnacal_new_t as a machine *)
-Record n2sum : Type := mkn2 {
-  n2_sum : nsum;
-  n2_ptol : dval; n2_ettol : dval; n2_iter : Z; n2_pvalue : dval
-}.
-Inductive n2call : Type :=
-| N2SetFv (h : handle) (fv : option (list dval)) (ranges_bad : bool)
-| N2SetZ0 (h : handle)
-| N2SetMError (h : handle) (a : merr_args)
-| N2SetPTol (h : handle) (x : dval)
-| N2SetEtTol (h : handle) (x : dval)
-| N2SetIter (h : handle) (n : Z)
-| N2SetPvalue (h : handle) (x : dval)
-| N2Solve (h : handle) (fails : bool).    (* fails: oracle, a working callee / numeric kernel fails *)
-
-Definition n2_contract (c : n2call) : list cstep :=
-  match c with
-  | N2SetFv _ _ _ => gen_contract_vnacal_new_set_frequency_vector
-  | N2SetZ0 _ => gen_contract_vnacal_new_set_z0
-  | N2SetMError _ _ => gen_contract_vnacal_new_set_m_error
-  | N2SetPTol _ _ => gen_contract_vnacal_new_set_p_tolerance
-  | N2SetEtTol _ _ => gen_contract_vnacal_new_set_et_tolerance
-  | N2SetIter _ _ => gen_contract_vnacal_new_set_iteration_limit
-  | N2SetPvalue _ _ => gen_contract_vnacal_new_set_pvalue_limit
-  | N2Solve _ _ => gen_contract_vnacal_new_solve
-  end.
-Definition n2_env (c : n2call) (s : n2sum) : env :=
-  match c with
-  | N2SetFv h fv rb => env_set_fv h (n2_sum s) fv rb
-  | N2SetZ0 h => env_int h "unused" 0
-  | N2SetMError h a => env_set_m_error h (n2_sum s) a
-  | N2SetPTol h x | N2SetEtTol h x => env_dbl h "tolerance" x
-  | N2SetIter h n => env_int h "iterations" n
-  | N2SetPvalue h x => env_dbl h "significance" x
-  | N2Solve h _ => env_solve h (n2_sum s)
-  end.
-Definition with_sum (s : n2sum) (f : nsum -> nsum) : n2sum :=
-  mkn2 (f (n2_sum s)) (n2_ptol s) (n2_ettol s) (n2_iter s) (n2_pvalue s).
-Definition set_fvalid (s : nsum) : nsum :=
-  mknsum (v_type s) (v_rows s) (v_cols s) (v_freqs s) true (v_merror s) (v_params s).
-Definition set_merror (b : bool) (s : nsum) : nsum :=
-  mknsum (v_type s) (v_rows s) (v_cols s) (v_freqs s) (v_fvalid s) b (v_params s).
-(* what the working steps of the call store (the summary only; vectors are outside it) *)
-Definition n2_work (c : n2call) (i : nat) (s : n2sum) : n2sum * bool :=
-  match c with
-  | N2SetFv _ _ _ => (with_sum s set_fvalid, false)
-  | N2SetZ0 _ => (s, false)
-  | N2SetMError _ _ => (with_sum s (set_merror true), false)
-  | N2SetPTol _ x => (mkn2 (n2_sum s) x (n2_ettol s) (n2_iter s) (n2_pvalue s), false)
-  | N2SetEtTol _ x => (mkn2 (n2_sum s) (n2_ptol s) x (n2_iter s) (n2_pvalue s), false)
-  | N2SetIter _ n => (mkn2 (n2_sum s) (n2_ptol s) (n2_ettol s) n (n2_pvalue s), false)
-  | N2SetPvalue _ x => (mkn2 (n2_sum s) (n2_ptol s) (n2_ettol s) (n2_iter s) x, false)
-  | N2Solve _ fails => (s, fails)         (* the solved calibration is not part of this summary *)
-  end.
-Definition n2_exit (c : n2call) (s : n2sum) : n2sum :=
-  match c with N2SetMError _ _ => with_sum s (set_merror false) | _ => s end.
-Definition n2_step (s : n2sum) (c : n2call) : n2sum * sres :=
-  srun (n2_env c) (n2_exit c) (n2_work c) O O (n2_contract c) s.
-
-Fixpoint n2_hist (s : n2sum) (ops : list n2call) : n2sum :=
-  match ops with [] => s | c :: r => n2_hist (fst (n2_step s c)) r end.
-
-(* what later calls rely on: dimensions of an allocated structure, an iteration count that lets the
-   iterative solver run, a p-value limit and tolerances no test of the setters refuses, an error
-   model only with a frequency vector *)
-Definition n2_inv (s : n2sum) : Prop :=
-  1 <= v_rows (n2_sum s) /\ 1 <= v_cols (n2_sum s) /\ 0 <= v_freqs (n2_sum s) /\
-  1 <= n2_iter s /\
-  dle (n2_pvalue s) d0 = false /\ dgt (n2_pvalue s) d1 = false /\
-  dlt (n2_ptol s) d0 = false /\ dlt (n2_ettol s) d0 = false /\
-  (v_merror (n2_sum s) = true -> v_fvalid (n2_sum s) = true).
 
 (* ------------------------------------------------------------------ _vnacal_new_add_common *)
 (* the port-map scan with the test that stops it: the port is below 1, the running maximum exceeds the ports of
@@ -350,3 +299,251 @@ Definition env_add (s : nsum) (a : addargs) : env :=
 
 (* the calibration types a vnacal_new_t can have (vnacal_new_alloc stores E12 as _VNACAL_E12_UE14) *)
 Definition new_type_ok (t : Z) : bool := (0 <=? t) && (t <=? 7).
+
+(* ------------------------------------------------------------------ doubles with infinities (vector arguments) *)
+(* the values a C double can have as far as the validation loops can tell them apart *)
+Inductive xd : Type := XNaN | XInf (neg : bool) | XFin (q : Q).
+Definition xnan (x : xd) : bool := match x with XNaN => true | _ => false end.
+Definition xinf (x : xd) : bool := match x with XInf _ => true | _ => false end.
+(* IEEE x < y, x <= y: false when either side is NaN *)
+Definition xlt (x y : xd) : bool :=
+  match x, y with
+  | XNaN, _ | _, XNaN => false
+  | XInf true, XInf true => false | XInf true, _ => true
+  | _, XInf true => false
+  | XInf false, _ => false
+  | _, XInf false => true
+  | XFin a, XFin b => negb (Qle_bool b a)
+  end.
+Definition xle (x y : xd) : bool :=
+  match x, y with
+  | XNaN, _ | _, XNaN => false
+  | XInf true, _ => true
+  | _, XInf true => false
+  | _, XInf false => true
+  | XInf false, _ => false
+  | XFin a, XFin b => Qle_bool a b
+  end.
+Definition x0 : xd := XFin 0.
+Fixpoint xadjacent_ge (l : list xd) : bool :=       (* l[i] >= l[i+1] for some i *)
+  match l with
+  | a :: ((b :: _) as r) => xle b a || xadjacent_ge r
+  | _ => false
+  end.
+(* a frequency the manual pages admit: a finite non-negative number *)
+Definition xfreq_ok (x : xd) : bool := match x with XFin q => Qle_bool 0 q | _ => false end.
+Definition xsigma_pos (x : xd) : bool := match x with XFin q => negb (Qle_bool q 0) | _ => false end.
+Definition xsigma_nonneg (x : xd) : bool := match x with XFin q => Qle_bool 0 q | _ => false end.
+Fixpoint xascending (l : list xd) : bool :=         (* strictly ascending *)
+  match l with
+  | a :: ((b :: _) as r) => xlt a b && xascending r
+  | _ => true
+  end.
+
+(* vnacal_new_set_frequency_vector over such vectors: both generations of the first loop's atom *)
+Definition env_set_fv_x (h : handle) (s : nsum) (fv : option (list xd)) (ranges_bad : bool) : env :=
+  let l := olist fv in
+  lookup (vnp_vars h ++
+          [("frequency_vector", optnull fv); ("vnp->vn_frequencies", VInt (v_freqs s));
+           ("atom:fv_has_nan_or_negative", bval (existsb (fun x => xnan x || xlt x x0) l));
+           ("atom:fv_has_nan_inf_or_negative", bval (existsb (fun x => xnan x || xinf x || xlt x x0) l));
+           ("atom:fv_not_ascending", bval (xadjacent_ge l));
+           ("atom:parameter_ranges_bad", bval ranges_bad)]).
+(* vnacal_new(3): "vector of increasing frequencies": finite, non-negative, strictly ascending *)
+Definition doc_set_fv (s : nsum) (fv : option (list xd)) (ranges_bad : bool) : cout :=
+  match fv with
+  | None => CRefused VM1 (Via USAGE)
+  | Some l => if forallb xfreq_ok l && xascending l && negb ((0 <? v_freqs s) && ranges_bad) then CPass
+              else CRefused VM1 (Via USAGE)
+  end.
+
+(* vnacal_new_set_m_error over such vectors *)
+Record merr_xargs : Type := mkmerrx {
+  mx_n : Z; mx_fv : option (list xd); mx_nf : option (list xd); mx_tr : option (list xd);
+  mx_narrow : bool; mx_s16 : bool
+}.
+Definition env_set_m_error_x (h : handle) (s : nsum) (a : merr_xargs) : env :=
+  let fvl := olist (mx_fv a) in
+  let given := match mx_fv a with Some _ => true | None => false end in
+  let narrow := given && (0 <? v_freqs s) && mx_narrow a in
+  let invalid := existsb (fun x => negb (xfreq_ok x)) fvl in
+  lookup (vnp_vars h ++
+          [("frequencies", VInt (mx_n a)); ("frequency_vector", optnull (mx_fv a));
+           ("sigma_nf_vector", optnull (mx_nf a)); ("sigma_tr_vector", optnull (mx_tr a));
+           ("vnp->vn_frequencies_valid", bval (v_fvalid s)); ("vnp->vn_frequencies", VInt (v_freqs s));
+           ("atom:sigma_nf_has_nonpositive", bval (existsb (fun x => xle x x0) (olist (mx_nf a))));
+           ("atom:sigma_tr_has_negative", bval (existsb (fun x => xlt x x0) (olist (mx_tr a))));
+           ("atom:sigma_nf_has_invalid", bval (existsb (fun x => negb (xsigma_pos x)) (olist (mx_nf a))));
+           ("atom:sigma_tr_has_invalid", bval (existsb (fun x => negb (xsigma_nonneg x)) (olist (mx_tr a))));
+           ("atom:m_error_fv_has_invalid", bval invalid);
+           ("atom:m_error_fv_has_invalid_n_gt_1", bval ((1 <? mx_n a) && invalid));
+           ("atom:m_error_fv_not_ascending", bval (xadjacent_ge fvl));
+           ("atom:m_error_fv_not_ascending_n_gt_1", bval ((1 <? mx_n a) && xadjacent_ge fvl));
+           ("atom:m_error_range_too_narrow", bval narrow);
+           ("atom:m_error_range_too_narrow_n_gt_1", bval ((1 <? mx_n a) && narrow));
+           ("atom:s_matrix_incomplete_16", bval (is_16 (v_type s) && mx_s16 a))]).
+
+(* vnacal_new_set_m_error as vnacal_new(3) describes it - written from the manual page, not from the code:
+     frequencies >= 1;  both sigma vectors NULL: the error model is removed;  sigma_nf required when sigma_tr is given;
+     noise floor values positive, tracking values non-negative (finite numbers);  the calibration frequencies must have
+     been set;  "If frequencies is 1, then frequency_vector is not used" - otherwise, when given, it is a vector of
+     finite non-negative ascending frequencies that covers the calibration range, and when NULL frequencies must equal
+     the number of calibration frequencies;  T16 / U16: every standard given so far specifies its whole S matrix *)
+Definition doc_set_m_error (s : nsum) (a : merr_xargs) : cout :=
+  let refuse := CRefused VM1 (Via USAGE) in
+  if mx_n a <? 1 then refuse
+  else match mx_nf a, mx_tr a with
+  | None, None => CExitOk
+  | None, Some _ => refuse
+  | Some nfl, _ =>
+      if negb (forallb xsigma_pos nfl) then refuse
+      else if negb (forallb xsigma_nonneg (olist (mx_tr a))) then refuse
+      else if negb (v_fvalid s) then refuse
+      else if (negb (mx_n a =? 1) &&
+               match mx_fv a with
+               | Some l => negb (forallb xfreq_ok l) || negb (xascending l) || ((0 <? v_freqs s) && mx_narrow a)
+               | None => negb (mx_n a =? v_freqs s)
+               end) then refuse
+      else if is_16 (v_type s) && mx_s16 a then refuse
+      else CPass
+  end.
+
+(* which generation of the validation loops the C text has: f92 = NaN / infinite / negative entries are tested (fix DC92),
+   f94 = frequency_vector is looked at only when frequencies > 1 (fix DC94) *)
+Definition gen_m_error_f92 : bool :=
+  Eval vm_compute in contract_mentions "atom:sigma_nf_has_invalid" gen_contract_vnacal_new_set_m_error.
+Definition gen_m_error_f94 : bool :=
+  Eval vm_compute in contract_mentions "atom:m_error_range_too_narrow_n_gt_1" gen_contract_vnacal_new_set_m_error.
+(* the decision as coded, in the order of the C text *)
+Definition code_set_m_error (f92 f94 : bool) (s : nsum) (a : merr_xargs) : mdec :=
+  if mx_n a <? 1 then MRefuse
+  else match mx_nf a, mx_tr a with
+  | None, None => MExitD
+  | None, Some _ => MRefuse
+  | Some nfl, _ =>
+      if (if f92 then existsb (fun x => negb (xsigma_pos x)) nfl else existsb (fun x => xle x x0) nfl) then MRefuse
+      else if (if f92 then existsb (fun x => negb (xsigma_nonneg x)) (olist (mx_tr a))
+               else existsb (fun x => xlt x x0) (olist (mx_tr a))) then MRefuse
+      else if negb (v_fvalid s) then MRefuse
+      else if (match mx_fv a with
+               | Some l => (if f94 then 1 <? mx_n a else true) &&
+                           ((f92 && existsb (fun x => negb (xfreq_ok x)) l) || xadjacent_ge l || ((0 <? v_freqs s) && mx_narrow a))
+               | None => negb (mx_n a =? 1) && negb (mx_n a =? v_freqs s)
+               end) then MRefuse
+      else if is_16 (v_type s) && mx_s16 a then MRefuse
+      else MPassD
+  end.
+
+(* ------------------------------------------------------------------ the settings of a vnacal_new_t as a machine *)
+Record n2sum : Type := mkn2 {
+  n2_sum : nsum;
+  n2_ptol : dval; n2_ettol : dval; n2_iter : Z; n2_pvalue : dval
+}.
+Inductive n2call : Type :=
+| N2SetFv (h : handle) (fv : option (list dval)) (ranges_bad : bool)
+| N2SetZ0 (h : handle)
+| N2SetMError (h : handle) (a : merr_xargs)
+| N2SetPTol (h : handle) (x : dval)
+| N2SetEtTol (h : handle) (x : dval)
+| N2SetIter (h : handle) (n : Z)
+| N2SetPvalue (h : handle) (x : dval)
+| N2Solve (h : handle) (fails : bool).    (* fails: oracle, a working callee / numeric kernel fails *)
+
+Definition n2_contract (c : n2call) : list cstep :=
+  match c with
+  | N2SetFv _ _ _ => gen_contract_vnacal_new_set_frequency_vector
+  | N2SetZ0 _ => gen_contract_vnacal_new_set_z0
+  | N2SetMError _ _ => gen_contract_vnacal_new_set_m_error
+  | N2SetPTol _ _ => gen_contract_vnacal_new_set_p_tolerance
+  | N2SetEtTol _ _ => gen_contract_vnacal_new_set_et_tolerance
+  | N2SetIter _ _ => gen_contract_vnacal_new_set_iteration_limit
+  | N2SetPvalue _ _ => gen_contract_vnacal_new_set_pvalue_limit
+  | N2Solve _ _ => gen_contract_vnacal_new_solve
+  end.
+Definition n2_env (c : n2call) (s : n2sum) : env :=
+  match c with
+  | N2SetFv h fv rb => env_set_fv h (n2_sum s) fv rb
+  | N2SetZ0 h => env_int h "unused" 0
+  | N2SetMError h a => env_set_m_error_x h (n2_sum s) a
+  | N2SetPTol h x | N2SetEtTol h x => env_dbl h "tolerance" x
+  | N2SetIter h n => env_int h "iterations" n
+  | N2SetPvalue h x => env_dbl h "significance" x
+  | N2Solve h _ => env_solve h (n2_sum s)
+  end.
+Definition with_sum (s : n2sum) (f : nsum -> nsum) : n2sum :=
+  mkn2 (f (n2_sum s)) (n2_ptol s) (n2_ettol s) (n2_iter s) (n2_pvalue s).
+Definition set_fvalid (s : nsum) : nsum :=
+  mknsum (v_type s) (v_rows s) (v_cols s) (v_freqs s) true (v_merror s) (v_params s).
+Definition set_merror (b : bool) (s : nsum) : nsum :=
+  mknsum (v_type s) (v_rows s) (v_cols s) (v_freqs s) (v_fvalid s) b (v_params s).
+(* what the working steps of the call store (the summary only; vectors are outside it) *)
+Definition n2_work (c : n2call) (i : nat) (s : n2sum) : n2sum * bool :=
+  match c with
+  | N2SetFv _ _ _ => (with_sum s set_fvalid, false)
+  | N2SetZ0 _ => (s, false)
+  | N2SetMError _ _ => (with_sum s (set_merror true), false)
+  | N2SetPTol _ x => (mkn2 (n2_sum s) x (n2_ettol s) (n2_iter s) (n2_pvalue s), false)
+  | N2SetEtTol _ x => (mkn2 (n2_sum s) (n2_ptol s) x (n2_iter s) (n2_pvalue s), false)
+  | N2SetIter _ n => (mkn2 (n2_sum s) (n2_ptol s) (n2_ettol s) n (n2_pvalue s), false)
+  | N2SetPvalue _ x => (mkn2 (n2_sum s) (n2_ptol s) (n2_ettol s) (n2_iter s) x, false)
+  | N2Solve _ fails => (s, fails)         (* the solved calibration is not part of this summary *)
+  end.
+Definition n2_exit (c : n2call) (s : n2sum) : n2sum :=
+  match c with N2SetMError _ _ => with_sum s (set_merror false) | _ => s end.
+Definition n2_step (s : n2sum) (c : n2call) : n2sum * sres :=
+  srun (n2_env c) (n2_exit c) (n2_work c) O O (n2_contract c) s.
+
+Fixpoint n2_hist (s : n2sum) (ops : list n2call) : n2sum :=
+  match ops with [] => s | c :: r => n2_hist (fst (n2_step s c)) r end.
+
+(* what later calls rely on: dimensions of an allocated structure, an iteration count that lets the
+   iterative solver run, a p-value limit and tolerances no test of the setters refuses, an error
+   model only with a frequency vector *)
+Definition n2_inv (s : n2sum) : Prop :=
+  1 <= v_rows (n2_sum s) /\ 1 <= v_cols (n2_sum s) /\ 0 <= v_freqs (n2_sum s) /\
+  1 <= n2_iter s /\
+  dle (n2_pvalue s) d0 = false /\ dgt (n2_pvalue s) d1 = false /\
+  dlt (n2_ptol s) d0 = false /\ dlt (n2_ettol s) d0 = false /\
+  (v_merror (n2_sum s) = true -> v_fvalid (n2_sum s) = true).
+
+
+(* ------------------------------------------------------------------ the callback log derived from the steps *)
+(* the three paths through _vnaerr_verror: an error function is installed and the message can be formatted; vasprintf
+   fails; no error function was given to vnacal_create *)
+Inductive rpath : Type := PReported | PFormatFailed | PNoErrorFn.
+Definition path_effects (p : rpath) : list veffect :=
+  match p with
+  | PReported => gen_verror_reported
+  | PFormatFailed => gen_verror_format_failed
+  | PNoErrorFn => gen_verror_no_error_fn
+  end.
+Definition path_callbacks (p : rpath) (r : report) : nat :=
+  match p with PNoErrorFn => 0%nat | _ => callbacks r end.
+
+(* the prologue with what it leaves in errno and in the log of calls of the error function: an SReport step that fires
+   runs the reporter, an SDirect step that fires stores its errno, every other step (passed tests, early exit, reaching
+   the work) leaves both alone *)
+Fixpoint ctrace_k (e : env) (p : rpath) (clob : nat -> errno_class) (k : nat) (steps : list cstep) (st : rstate)
+  : cout * rstate :=
+  match steps with
+  | [] => (CPass, st)
+  | s :: r =>
+      match k with
+      | S k' => ctrace_k e p clob k' r st
+      | O =>
+          match s with
+          | SDirect c en v => if ceval e c then (CRefused v (Direct en), mkr en (r_log st)) else ctrace_k e p clob O r st
+          | SReport c cat v =>
+              if ceval e c
+              then (CRefused v (Via cat), run_effects (new_errno cat (r_errno st)) cat (path_effects p) clob 0 st)
+              else ctrace_k e p clob O r st
+          | SExit c => if ceval e c then (CExitOk, st) else ctrace_k e p clob O r st
+          | SSkip c n => if ceval e c then ctrace_k e p clob n r st else ctrace_k e p clob O r st
+          | SAlloc _ => ctrace_k e p clob O r st
+          | SLate _ => (CPass, st)
+          | SWork => (CPass, st)
+          end
+      end
+  end.
+Definition ctrace (e : env) (p : rpath) (clob : nat -> errno_class) (steps : list cstep) (entry : errno_class) : cout * rstate :=
+  ctrace_k e p clob O steps (mkr entry []).
